@@ -634,6 +634,65 @@ Section MapsProofs.
         * constructor; auto.
       + apply IHHP1_2. apply IHHP1_1. assumption.
   Qed.
+  (* ---------------------------------------------------------------- several bindings: maps are values *)
+  Notation bnew := (bnew K V kcmp).
+  Notation bstep := (bstep K V kcmp).
+  Notation brun := (brun K V kcmp).
+  Notation s_bnew := (s_bnew K V kcmp).
+  Notation s_bstep := (s_bstep K V kcmp).
+  Notation s_brun := (s_brun K V kcmp).
+
+  Lemma nth_error_map_elems : forall (st : list gmap) i,
+    nth_error (map elems st) i = option_map elems (nth_error st i).
+  Proof. intros. apply nth_error_map. Qed.
+
+  Lemma Forall_nth : forall (st : list gmap) i m, Forall Inv st -> nth_error st i = Some m -> Inv m.
+  Proof. intros st i m HF HN. rewrite Forall_forall in HF. apply HF. eapply nth_error_In; eauto. Qed.
+
+  Lemma bnew_refines : forall st o, Forall Inv st ->
+    match s_bnew (map elems st) o with
+    | Some l => exists m, bnew st o = Val m /\ elems m = l /\ Inv m
+    | None => bnew st o = GoPanic
+    end.
+  Proof.
+    intros st o HF. destruct o; simpl; unfold Maps.s_with, Maps.with_binding; rewrite ?nth_error_map_elems.
+    - destruct (mliteral_refines ps) as (m & E & L & I'). eauto.
+    - destruct (nth_error st i) as [m|] eqn:E; simpl; auto.
+      destruct (mset_refines m k v (Forall_nth st i m HF E)) as (m' & E' & L & I'). eauto.
+    - destruct (nth_error st i) as [m|] eqn:E; simpl; auto.
+      destruct (mdelete_refines m k (Forall_nth st i m HF E)) as (m' & E' & L & I'). rewrite E'. simpl. eauto.
+    - destruct (nth_error st i) as [m|] eqn:E; simpl; auto.
+      destruct (nth_error st j) as [r|] eqn:E2; simpl; auto.
+      destruct (mappend_refines m r (Forall_nth st i m HF E) (Forall_nth st j r HF E2)) as (m' & E' & L & I'). eauto.
+    - destruct (nth_error st i) as [m|] eqn:E; simpl; auto.
+      pose proof (mrest_refines m (Forall_nth st i m HF E)) as H.
+      destruct (s_rest K V (elems m)) as [t|].
+      + destruct H as (m' & E' & L & I'). rewrite E'. eauto.
+      + rewrite H. reflexivity.
+    - destruct (nth_error st i) as [m|] eqn:E; simpl; auto.
+      pose proof (mrange_refines m lo hi (Forall_nth st i m HF E)) as H.
+      destruct (s_range K V (elems m) lo hi) as [t|]; auto.
+  Qed.
+
+  Theorem brun_refines : forall ops st, Forall Inv st ->
+    brun st ops = match s_brun (map elems st) ops with Some x => Val x | None => GoPanic end.
+  Proof.
+    induction ops as [|o ops IH]; intros st HF; simpl; auto.
+    unfold Maps.bstep, Maps.s_bstep.
+    pose proof (bnew_refines st o HF) as H.
+    destruct (s_bnew (map elems st) o) as [l|]; simpl.
+    - destruct H as (m & E & L & I'). rewrite E. simpl.
+      assert (HF' : Forall Inv (st ++ [m])) by (apply Forall_app; split; auto).
+      rewrite (IH _ HF'). rewrite map_app. simpl. rewrite L.
+      destruct (s_brun (map elems st ++ [l]) ops); reflexivity.
+    - rewrite H. reflexivity.
+  Qed.
+
+  (* on the reference an operation only adds a binding: every earlier binding keeps its content *)
+  Lemma s_bstep_extends : forall st o st', s_bstep st o = Some st' -> exists l, st' = st ++ [l].
+  Proof.
+    intros st o st' H. unfold Maps.s_bstep in H. destruct (s_bnew st o) as [l|]; simpl in H; inversion H. eauto.
+  Qed.
 End MapsProofs.
 
 (* ================================================================ instantiation with the model of object.Cmp *)
